@@ -85,6 +85,17 @@ CHECKS["C01"] = dict(
     technique="Lean 4 proof (mutual structural induction over nested inductive item trees, sublist/Nodup lemmas for the anchors map) + differential correspondence on every path",
     design="5/C01")
 
+CHECKS["C06"] = dict(
+    text="Lean 4: walkM_eq (the one-pass, instance-reading LocationMaker.walk equals the pure layout of the record's own counter values), "
+         "okM_of_encodes (its side condition follows from: counters declared before their tables, unique anchor names, the record holds "
+         "the values), odo_layout (= C01 under env + announced length = rule's total), odo_index_refused, rowsN_readback / odo_file_readback "
+         "(back-to-back records delivered each where the previous ended, composed with C05's buffer invariant, for every count sequence). "
+         "Corresponded with the real LocationMaker and COBOL_EBCDIC_File.rows() over RECFM N (incl. files crossing 32768 bytes), V and VB.",
+    note="Trusted: as C01/C05; counter decoding is abstract in the theorems (any decode with decode(record slice)=env c) and instantiated in the "
+         "driver with zoned/binary decoders (C02). ODO inside a repeated group is excluded (index() there is known finding D17, C10).",
+    technique="Lean 4 proof (mutual induction over the schema with threaded anchors; refinement of the stateful reader to the pure layout; composition with the RECFM_N invariant) + differential correspondence",
+    design="5/C06")
+
 NOT_APPLICABLE = {
 }
 
